@@ -1295,7 +1295,7 @@ impl Server {
         if self.is_write_command(&command_name) && !logged_by_outcome {
             self.append_to_aof(db, parts);
         }
-        if is_script && self.aof_engine.is_some() {
+        if is_script {
             crate::storage::lua_engine::SCRIPT_EFFECTS.with(|effects| *effects.borrow_mut() = Some(Vec::new()));
         }
         
@@ -1613,6 +1613,16 @@ impl Server {
         
         if is_script {
             if let Some(effects) = crate::storage::lua_engine::SCRIPT_EFFECTS.with(|effects| effects.borrow_mut().take()) {
+                // Elements pushed by a script wake the clients blocked on that key, like any other push
+                for (args, reply) in &effects {
+                    if args.len() >= 2 && matches!(reply, RespFrame::Integer(n) if *n > 0) {
+                        let name = args[0].to_uppercase();
+                        if (name == "LPUSH" || name == "RPUSH")
+                            && self.blocking_manager.has_blocked_clients(db, args[1].as_bytes()) {
+                            self.blocking_manager.notify_key_ready(db, args[1].as_bytes());
+                        }
+                    }
+                }
                 self.log_script_effects(db, effects);
             }
         }
